@@ -1388,6 +1388,8 @@ impl<'a> World<'a> {
                 };
                 let link = match self.fetch(&txn, r, k) {
                     Some(l) => l,
+                    // nothing is asserted about a quotation without boundary element
+                    None if self.tracked[k].wild() => continue,
                     None => {
                         return Err(fail(
                             "a stored quotation cannot be read back from the document",
